@@ -28,6 +28,7 @@ type TapeElem struct {
 	V    Val
 	T    types.Type // Go type of V for Opaque / Repeated / Dynamic
 	Kids []TapeElem // Struct
+	Snap *State     // Opaque: the state at emission; a later expansion reads the memory as it was then
 }
 
 type tapeCursor struct {
@@ -123,6 +124,17 @@ func fork2(st *State, cond *Term, yes, no func(st *State)) {
 	if cond == False {
 		no(st)
 		return
+	}
+	switch st.decided(cond) {
+	case 1:
+		yes(st)
+		return
+	case -1:
+		no(st)
+		return
+	}
+	if os.Getenv("GOCV_TRACE_FORKS") != "" {
+		fmt.Fprintf(os.Stderr, "fork2 %s\n", cond.String())
 	}
 	s1 := st.clone()
 	s1.assume(cond)
@@ -285,14 +297,30 @@ func (x *Exec) modelInvoke(fr *Frame, st *State, site ssa.Instruction, cc *ssa.C
 			case "Struct":
 				withKids(st, e.Kids)
 			case "Opaque":
-				// a structure emitted by the reflective encoder: expand it one level on demand
-				tmp := x.newModelID()
-				x.structPlan(fr, st, site, tmp, e.T, e.V, func(s *State, panicked bool) {
+				// a structure emitted by the reflective encoder: expand it one level on demand, reading the
+				// memory as it was when the element was emitted (the decoder may have written since)
+				tmpID := x.newModelID()
+				base := st
+				tmp := base.clone()
+				if e.Snap != nil {
+					tmp.heap = make(map[string]*Term, len(e.Snap.heap))
+					for hk, hv := range e.Snap.heap {
+						tmp.heap[hk] = hv
+					}
+				}
+				tmp.tapes = map[int][]TapeElem{}
+				n0 := len(base.pc)
+				x.structPlan(fr, tmp, site, tmpID, e.T, e.V, func(s *State, panicked bool) {
+					real := base.clone()
+					for _, c := range s.pc[n0:] {
+						real.assume(c)
+					}
+					real.allocW = s.allocW
 					if panicked {
-						k(s, Val{}, true)
+						k(real, Val{}, true)
 						return
 					}
-					withKids(s, s.tapes[tmp])
+					withKids(real, s.tapes[tmpID])
 				})
 			default:
 				k(st, st.newErr(), false)
@@ -655,7 +683,9 @@ func (x *Exec) modelEncode(fr *Frame, st *State, site ssa.Instruction, wid int, 
 		fork2(st, Eq(v.C[0], IntConst(0)), func(s *State) { k(s, false) }, func(s *State) {
 			lv := derefPtr(v)
 			ev := x.loadWF(s, lv)
-			ev.LV = lv
+			if _, isPtr := u.Elem().Underlying().(*types.Pointer); !isPtr {
+				ev.LV = lv
+			}
 			x.modelEncode(fr, s, site, wid, tag, u.Elem(), ev, depth+1, k)
 		})
 	case *types.Basic:
@@ -697,7 +727,7 @@ func (x *Exec) modelEncode(fr *Frame, st *State, site ssa.Instruction, wid int, 
 			k(s, false)
 		})
 	case *types.Struct:
-		st.tapeAppend(wid, TapeElem{Tag: tag, Kind: "Opaque", V: v, T: t})
+		st.tapeAppend(wid, TapeElem{Tag: tag, Kind: "Opaque", V: v, T: t, Snap: st.clone()})
 		k(st, false)
 	case *types.Interface:
 		fork2(st, Eq(v.C[0], IntConst(0)), func(s *State) { k(s, false) }, func(s *State) {
@@ -810,7 +840,8 @@ func (x *Exec) structPlan(fr *Frame, st *State, site ssa.Instruction, wid int, t
 		f := stt.Field(fp.idx)
 		fv := fieldVal(v, fp.idx)
 		fv.T = f.Type()
-		if v.LV != nil {
+		if _, isPtr := f.Type().Underlying().(*types.Pointer); v.LV != nil && !isPtr {
+			// where this (addressable) field lives; for a pointer value LV would mean its target instead
 			fv.LV = &LVal{Prefix: v.LV.Prefix, Ref: v.LV.Ref, Idx: v.LV.Idx, Path: v.LV.Path + "." + f.Name(), T: f.Type()}
 		}
 		next := func(s *State, panicked bool) {
